@@ -18,6 +18,7 @@ import (
 	"errors"
 	"fmt"
 	"strings"
+	"time"
 
 	"verif/engine/vsched"
 )
@@ -35,12 +36,43 @@ const (
 )
 
 var (
-	ErrConnectionClosed = errors.New("nats: connection closed")
-	ErrBadSubscription  = errors.New("nats: invalid subscription")
-	ErrBadSubject       = errors.New("nats: invalid subject")
-	ErrMaxPayload       = errors.New("nats: maximum payload exceeded")
-	ErrTimeout          = errors.New("nats: timeout")
+	ErrConnectionClosed   = errors.New("nats: connection closed")
+	ErrConnectionDraining = errors.New("nats: connection draining")
+	ErrDrainTimeout       = errors.New("nats: draining connection timed out")
+	ErrBadSubscription    = errors.New("nats: invalid subscription")
+	ErrBadSubject         = errors.New("nats: invalid subject")
+	ErrMaxPayload         = errors.New("nats: maximum payload exceeded")
+	ErrTimeout            = errors.New("nats: timeout")
+	ErrNoResponders       = errors.New("nats: no responders available for request")
+	ErrSlowConsumer       = errors.New("nats: slow consumer, messages dropped")
+	ErrInvalidConnection  = errors.New("nats: invalid connection")
+	ErrInvalidMsg         = errors.New("nats: invalid message or message nil")
+	ErrBadTimeout         = errors.New("nats: timeout invalid")
 )
+
+// Defaults of nats.go that client code may refer to.
+const (
+	DefaultTimeout            = 2 * time.Second
+	DefaultDrainTimeout       = 30 * time.Second
+	DefaultPingInterval       = 2 * time.Minute
+	DefaultReconnectWait      = 2 * time.Second
+	DefaultMaxReconnect       = 60
+	DefaultSubPendingMsgsLimit  = 512 * 1024
+	DefaultSubPendingBytesLimit = 64 * 1024 * 1024
+)
+
+// Options mirrors the fields of nats.Options that are plain configuration values.
+type Options struct {
+	Url            string
+	Name           string
+	Timeout        time.Duration
+	DrainTimeout   time.Duration
+	FlusherTimeout time.Duration
+	PingInterval   time.Duration
+	ReconnectWait  time.Duration
+	MaxReconnect   int
+	AllowReconnect bool
+}
 
 type Header map[string][]string
 
@@ -73,6 +105,8 @@ type Msg struct {
 type MsgHandler func(msg *Msg)
 
 type Conn struct {
+	// Opts are the connection's options (nats.Conn.Opts); defaults as GetDefaultOptions gives them.
+	Opts       Options
 	obj        *vsched.Obj
 	status     Status
 	subs       []*Subscription
@@ -99,7 +133,24 @@ type Subscription struct {
 
 // NewConn returns a connected fake connection.
 func NewConn() *Conn {
-	return &Conn{obj: vsched.NewObj("natsconn"), status: CONNECTED, MaxPayload: 1024 * 1024}
+	return &Conn{obj: vsched.NewObj("natsconn"), status: CONNECTED, MaxPayload: 1024 * 1024,
+		Opts: Options{Url: "nats://fake:4222", Timeout: DefaultTimeout, DrainTimeout: DefaultDrainTimeout, PingInterval: DefaultPingInterval,
+			ReconnectWait: DefaultReconnectWait, MaxReconnect: DefaultMaxReconnect, AllowReconnect: true}}
+}
+
+func (c *Conn) IsConnected() bool { return c.Status() == CONNECTED }
+func (c *Conn) IsClosed() bool    { return c.Status() == CLOSED }
+func (c *Conn) IsDraining() bool  { s := c.Status(); return s == DRAINING_SUBS || s == DRAINING_PUBS }
+
+// Respond publishes a reply to the message's reply subject.
+func (m *Msg) Respond(data []byte) error {
+	if m == nil || m.Sub == nil {
+		return ErrInvalidMsg
+	}
+	if m.Reply == "" {
+		return errors.New("nats: message does not have a reply")
+	}
+	return m.Sub.conn.Publish(m.Reply, data)
 }
 
 func (c *Conn) Status() Status { c.obj.Read(); return c.status }
